@@ -125,3 +125,19 @@ Theorem C14_json_optional_default : forall (valid_cur : text -> bool) (t : dtxn)
   JOk {| x_date := x_date t; x_tick := x_tick t; x_op := without_optional (x_op t) |}.
 Proof. exact json_optional_default. Qed.
 Print Assumptions C14_json_optional_default.
+
+(* the lenient side of the reader, as the property's mechanism names it: the action's letter case is free (ASCII), CAP_RETURN is CAPRETURN,
+   a plain string is an amount in pounds *)
+Theorem C14_json_action_case : forall (valid_cur : text -> bool) a a' rest,
+  is_ascii_text a = true -> is_ascii_text a' = true -> upper_text a = upper_text a' ->
+  read_op valid_cur ((K_ACTION, JStr a) :: rest) = read_op valid_cur ((K_ACTION, JStr a') :: rest).
+Proof. exact json_action_case. Qed.
+Print Assumptions C14_json_action_case.
+Theorem C14_json_cap_return_alias : forall (valid_cur : text -> bool) rest,
+  read_op valid_cur ((K_ACTION, JStr A_CAP_RETURN) :: rest) = read_op valid_cur ((K_ACTION, JStr KW_CAPRETURN) :: rest).
+Proof. exact json_cap_return_alias. Qed.
+Print Assumptions C14_json_cap_return_alias.
+Theorem C14_json_plain_string_is_pounds : forall (valid_cur : text -> bool) d, dec_ok d = true ->
+  read_money valid_cur (j_dec d) = JOk {| m_amt := d; m_cur := GBP |}.
+Proof. exact read_money_plain. Qed.
+Print Assumptions C14_json_plain_string_is_pounds.
